@@ -97,6 +97,7 @@ func checkC01(c *Ctx) {
 	c.Clause("copy buffers handed to the reverse proxy are exclusive to one copy (a pool that hands out only what was put back, or fresh slices)")
 	c.Clause("a backend's base URL and reverse proxy are built from url.Parse's own result for the registered address, on every path (a URL re-assembled from Scheme/Host/Path drops RawPath and re-codes an escaped base path)")
 	c.Clause("the ID middleware writes a request header only where it found that identifier blank: a supplied one (possibly sent on several lines) reaches the backend as sent")
+	c.Clause("no handler on the serving path is wrapped in http.TimeoutHandler (its writer buffers the whole response and has neither Flush nor Hijack)")
 	c.NotDecided("what net/http and httputil do with the bytes (hop-by-hop headers, framing, 1xx, HEAD); path/query joining for backend base paths; timing of flushes")
 
 	ws := c.wrappers()
@@ -223,6 +224,7 @@ func checkC01(c *Ctx) {
 	// RawPath: an escaped base path such as /tenants/acme%2Feu reaches the backend re-coded)
 	c11OwnMachinery(c)
 	c.suppliedIDLeavesRequestAlone()
+	c.noBufferingHandler()
 	c.copyBuffersExclusive()
 	c.abortPropagates()
 	c.presetHeadersSurviveInterim()
